@@ -1,0 +1,16 @@
+//go:build verif
+
+package share
+
+import (
+	headerServ "github.com/celestiaorg/celestia-node/nodebuilder/header"
+	"github.com/celestiaorg/celestia-node/share"
+	"github.com/celestiaorg/celestia-node/share/shwap"
+)
+
+// VerifNewModule exposes the unexported share module constructor to the runtime monitors
+// (build tag verif only): the same Module the node serves over RPC, over a given getter and
+// header service.
+func VerifNewModule(getter shwap.Getter, avail share.Availability, hs headerServ.Module) Module {
+	return newShareModule(getter, avail, hs)
+}
